@@ -223,6 +223,20 @@ func Eval(q *Q, d *Doc) bool {
 	panic("model: unknown op " + q.Op)
 }
 
+// EvalDoc: a document is listed iff its own entry or one of its nested entries (each a
+// separate index entry under the parent's ID, carrying its own token list) satisfies q.
+func EvalDoc(q *Q, d *Doc) bool {
+	if Eval(q, d) {
+		return true
+	}
+	for _, n := range d.Nested {
+		if Eval(q, &Doc{ID: d.ID, Toks: n}) {
+			return true
+		}
+	}
+	return false
+}
+
 // ---------------------------------------------------------------- corpus ops
 
 type Corpus []Doc
@@ -265,7 +279,7 @@ func Matching(c Corpus, r *SearchReq) []*Doc {
 		if d.ID.MID < r.From || d.ID.MID > r.To {
 			continue
 		}
-		if Eval(r.Q, d) {
+		if EvalDoc(r.Q, d) {
 			out = append(out, d)
 		}
 	}
